@@ -83,6 +83,9 @@ def res_key(mech):
     if head == "capture-builtin" and len(f) == 3:
         if set(f[2]) & set("CD") and hlsl:
             return "hlsl-cbuffer-not-in-namemap", "capture:%s:cbuffer" % t
+        if set(f[2]) == {"M"}:
+            # inside the struct (method signatures and bodies) a member named like a built-in type hides it
+            return "struct-member-not-in-namemap", "capture:%s:member" % t
         return None, mech
     if head == "capture" and len(f) == 4:
         meant, got = f[2], f[3]
@@ -98,6 +101,8 @@ def res_key(mech):
             return "generated-names-not-reserved", "capture:%s:generated%s" % (t, w)
         if ks & set("CD") and hlsl:
             return "hlsl-cbuffer-not-in-namemap", "capture:%s:cbuffer" % t
+        if meant == "M" and set(got) == {"F", "M"}:
+            return "struct-member-not-in-namemap", "capture:%s:member-method" % t
         if meant in ("S", "E", "t") and got == "L" and not wrapper:
             return "local-captures-type-name", "capture:%s:type:by-local" % t
         if t == "msl" and wrapper and meant == "F" and got == "L":
